@@ -15,6 +15,16 @@ const (
 	cUnasserted              // the statement is silent for this cell; nothing is asserted
 )
 
+// whyNilPtr marks the shape of a reported host panic (nil pointer passed where another
+// pointer type is wanted); cases containing it are excluded while knownNilPtrPanic is set.
+const whyNilPtr = "nil pointer re-typing"
+
+// knownNilPtrPanic: true while /repo panics on that shape (reported, signature
+// "C11|panic|calls|reflect: call of reflect.Value.Type on zero Value").
+const knownNilPtrPanic = true
+
+var stName = []string{" ok", " none", " unasserted"}
+
 // convRes is the result of goConvert.
 type convRes struct {
 	st       cstat
@@ -71,6 +81,9 @@ func goConvert(v reflect.Value, T reflect.Type) convRes {
 		return none("type does not implement " + T.String())
 	}
 	if vt.Kind() == reflect.Ptr || T.Kind() == reflect.Ptr {
+		if vt.Kind() == reflect.Ptr && T.Kind() == reflect.Ptr && v.IsNil() {
+			return unas(whyNilPtr)
+		}
 		return unas("pointer re-typing")
 	}
 
@@ -145,7 +158,7 @@ func goConvert(v reflect.Value, T reflect.Type) convRes {
 		for i := 0; i < n; i++ {
 			r := goConvert(v.Index(i), T.Elem())
 			if len(sub) < 64 {
-				sub = append(append(sub, r.cell), r.sub...)
+				sub = append(append(sub, r.cell+stName[r.st]), r.sub...)
 			}
 			switch r.st {
 			case cNone:
@@ -170,7 +183,7 @@ func goConvert(v reflect.Value, T reflect.Type) convRes {
 			rk := goConvert(it.Key(), T.Key())
 			rv := goConvert(it.Value(), T.Elem())
 			if len(sub) < 64 {
-				sub = append(append(sub, "key:"+rk.cell, rv.cell), rv.sub...)
+				sub = append(append(sub, "key:"+rk.cell+stName[rk.st], rv.cell+stName[rv.st]), rv.sub...)
 			}
 			if rk.st == cNone {
 				return none("key: " + rk.why)
